@@ -252,6 +252,14 @@ def predFindSet (req obs : List String) : Option Bool :=
 /-- canonical spelling of a working directory relative to find's own: components joined by '/', `.` for none -/
 def normDir (p : Bytes) : Bytes :=
   let cs := (FuModel.Path.comps p).map (·.1) |>.filter (· != FuModel.Path.dot)
+  -- the recorder reports the physical working directory: `x/..` is cancelled (the harness only
+  -- writes `..` after real directories)
+  let cs := (cs.foldl (fun (acc : List Bytes) c =>
+    if c == FuModel.Path.dotdot then
+      (match acc with
+       | top :: rest => if top == FuModel.Path.dotdot then c :: acc else rest
+       | [] => [c])
+    else c :: acc) []).reverse
   let body := (List.intercalate [47] cs)
   if FuModel.Path.rooted p then 47 :: body else if body.isEmpty then [46] else body
 
@@ -272,6 +280,28 @@ def handleX (verb : String) (args : List String) : Option String :=
       if res.gs.panicked then pure "panic"
       else pure s!"st={res.ret} out={hexOfBytes res.gs.out} execs={showExecs res.gs.execs}"
     | none => pure "st=1 out=- execs=."
+  | _, _ => none
+
+/-- `exec-order <k>`: what `find DIR -sorted -type f -printf 'A:%f ' -exec echo B {} ;` must leave on the
+    standard output shared by find and the command, for the files `f0 … f(k-1)` of `d`: the action runs
+    at that point of the evaluation, after what the earlier action of the same entry wrote -/
+def execOrderExpected (k : Nat) : Bytes :=
+  (List.range k).flatMap fun i =>
+    let nm := "f" ++ toString i
+    ("A:" ++ nm ++ " B d/" ++ nm ++ "\n").toUTF8.toList
+
+def handleOrder (verb : String) (args : List String) : Option String :=
+  match verb, args with
+  | "exec-order", [k] => do
+    let k ← k.toNat?
+    pure s!"st=0 out={hexOfBytes (execOrderExpected k)}"
+  | _, _ => none
+
+def predOrder (req obs : List String) : Option Bool :=
+  match req, obs with
+  | ["exec-order", k], [st, out] => do
+    let k ← k.toNat?
+    pure (st == "st=0" && out == s!"out={hexOfBytes (execOrderExpected k)}")
   | _, _ => none
 
 def parseObsX : List String → Option (Nat × Bytes × List (Bytes × List Bytes))
